@@ -172,7 +172,7 @@ def sync_table(ctx: Ctx, rule: str) -> None:
 
     LOC = canon_text("':' + " + OBJP + "['shared_pool']")
     UNSET = ("pool_scope", "unset_location=" + LOC, "unset_mode=" + OBJP + ".get('unset_mode', 'ri')", "unset_state=" + STATE)
-    GET = ("get_location=" + LOC, "get_state=" + STATE)
+    GET = ("get_location=" + LOC, "get_state=" + STATE, "pool_scope!=own")  # the sync request never carries the own scope
 
     def reference(v):
         if not v["HAS"]:
@@ -210,19 +210,24 @@ def sync_table(ctx: Ctx, rule: str) -> None:
         if p.exit == "raise":
             kind = "raise:" + (PathEnum._raised_name(p.exit_node) or "?")
         keys = set()
-        for i, c in view.calls(lambda c: call_name(c) == "update" and ast.unparse(c.func.value) == "node_params"):
-            d = c.args[0] if c.args else None
-            if isinstance(d, ast.Dict):
-                for k, value in zip(d.keys, d.values):
-                    lead = k.values[0].value if isinstance(k, ast.JoinedStr) and isinstance(k.values[0], ast.Constant) else (
-                        k.value if isinstance(k, ast.Constant) else "?")
-                    if lead == "pool_scope" and not (isinstance(value, ast.Constant) and value.value == "own"):
-                        lead = "pool_scope!=own"
-                    elif lead != "pool_scope":
-                        lead = f"{lead}={view.canon_text(value, i)}"
-                    keys.add(lead)
-            else:
-                keys.add("?")
+        from ..facts import dict_writes
+
+        for i, st in view.stmts():
+            if any(isinstance(x, (ast.For, ast.While)) for x in ast.walk(st)):
+                continue
+            for k, value, site in dict_writes(st, "node_params"):
+                if k is None:
+                    keys.add("?")
+                    continue
+                lead = k.values[0].value if isinstance(k, ast.JoinedStr) and isinstance(k.values[0], ast.Constant) else (
+                    k.value if isinstance(k, ast.Constant) else "?")
+                if lead in ("images_", "image_name_", "image_format_", "remove_image_", "skip_image_processing"):
+                    continue  # the image description of a vm handed to the door, not part of the request
+                if lead == "pool_scope" and not (isinstance(value, ast.Constant) and value.value == "own"):
+                    lead = "pool_scope!=own"
+                elif lead != "pool_scope":
+                    lead = f"{lead}={view.canon_text(value, i)}"
+                keys.add(lead)
         return (kind, final_const(view, "should_clean"), final_const(view, "do"), tuple(sorted(keys)))
 
     table_rule(ctx, rule, SYNC, views, spec, outcome,
